@@ -539,7 +539,9 @@ pub fn run(ctx: &Ctx) -> Outcome {
     ]));
     out.cov("distinct_outcomes_per_input", json!(if acc.violating == 0 { 1 } else { 2 }));
     out.cov("seam_bypass", json!(bypass));
-    out.cov("free_running_pass", json!({"kind": "sampling (supplementary, never the verdict)", "child_processes": children, "result": match &free { Ok(n) => json!(format!("{n} inputs, each visited 3 times on different threads in every process, the processes visiting them in different orders: one digest per input")), Err(f) => json!(f.what) }}));
+    out.cov("impurity_scan (mentions of env, time, statics, atomics, locks, addresses, files in kiki/src)", json!(impurity_scan()));
+    out.cov("environment_variables_read_by_kiki (set in one of the free-running children)", json!(env_names_read_by_kiki()));
+    out.cov("free_running_pass", json!({"kind": "sampling (supplementary, never the verdict)", "child_processes": children, "result": match &free { Ok(n) => json!(format!("{n} inputs, each visited 3 times on different threads in every process, the processes visiting them in different orders and under different environments (RUST_LOG, RUST_BACKTRACE, LANG, TZ, HOME, working directory, DEBUG / VERBOSE / KIKI_* and every variable kiki's source reads): one digest per input")), Err(f) => json!(f.what) }}));
     out.cov("samples", json!(samples));
     out.cov("explanation", json!("one state = one execution of the real generate under a schedule of hash-iteration orders installed through the kiki::verif_collections seam; one transition = one choice point at which the schedule departs from or follows the identity order; all n! orders are tried where n! is below the cap, otherwise the generator set (adjacent transpositions, reversal, rotations); the same schedule is run twice and a replayed prefix must pass the same choice points (otherwise exit 2); every execution is an execution of the implementation"));
     out.violating_cases = acc.violating;
@@ -548,6 +550,63 @@ pub fn run(ctx: &Ctx) -> Outcome {
         "hash collections reach kiki only through the cfg-switched imports (the scan result is in seam_bypass); the seam permutes iteration order, which is the only way RandomState can influence a program that does not print hashes".into(),
         "interactions needing more than the deviation bound of simultaneously permuted sites are not reached".into(),
     ];
+    out
+}
+
+/// Names of environment variables that kiki's source reads (`env::var("X")`, `env::var_os("X")`, `env!("X")`,
+/// `option_env!("X")`): one of the free-running children sets each of them.
+pub fn env_names_read_by_kiki() -> Vec<String> {
+    let mut out = std::collections::BTreeSet::new();
+    fn walk(dir: &std::path::Path, out: &mut std::collections::BTreeSet<String>) {
+        let Ok(rd) = std::fs::read_dir(dir) else { return };
+        for p in rd.filter_map(|e| e.ok()).map(|e| e.path()) {
+            if p.is_dir() {
+                walk(&p, out);
+            } else if p.extension().map_or(false, |x| x == "rs") {
+                let Ok(text) = std::fs::read_to_string(&p) else { continue };
+                for pat in ["env::var(\"", "env::var_os(\"", "env!(\"", "option_env!(\""] {
+                    let mut rest = text.as_str();
+                    while let Some(i) = rest.find(pat) {
+                        let tail = &rest[i + pat.len()..];
+                        if let Some(j) = tail.find('"') {
+                            out.insert(tail[..j].to_string());
+                        }
+                        rest = tail;
+                    }
+                }
+            }
+        }
+    }
+    walk(&repo().join("kiki/src"), &mut out);
+    out.into_iter().collect()
+}
+
+/// Mentions in kiki's source of things a pure function has no business with (reported in the evidence; the
+/// histories, the repeat oracle and the environment-varying children are what would notice their effect).
+pub fn impurity_scan() -> Vec<String> {
+    let mut out = vec![];
+    fn walk(dir: &std::path::Path, out: &mut Vec<String>) {
+        let Ok(rd) = std::fs::read_dir(dir) else { return };
+        let mut entries: Vec<_> = rd.filter_map(|e| e.ok()).map(|e| e.path()).collect();
+        entries.sort();
+        for p in entries {
+            if p.is_dir() {
+                walk(&p, out);
+            } else if p.extension().map_or(false, |x| x == "rs") && p.file_name().map_or(true, |n| n != "verif_collections.rs") {
+                let Ok(text) = std::fs::read_to_string(&p) else { continue };
+                for (i, l) in text.lines().enumerate() {
+                    let t = l.trim();
+                    if t.starts_with("//") {
+                        continue;
+                    }
+                    if ["std::env", "env::var", "SystemTime", "Instant::now", "thread_local!", "static mut", "OnceLock", "OnceCell", "lazy_static", "AtomicUsize", "AtomicU64", "Mutex<", "RwLock<", "process::id", "thread::current", "as *const", "{:p}", "std::fs::", "std::net"].iter().any(|k| t.contains(k)) {
+                        out.push(format!("{}:{}", p.strip_prefix(repo()).unwrap_or(&p).display(), i + 1));
+                    }
+                }
+            }
+        }
+    }
+    walk(&repo().join("kiki/src"), &mut out);
     out
 }
 
@@ -580,7 +639,25 @@ fn free_running_pass(children: usize) -> Result<u64, Finding> {
     let reports: Vec<String> = (0..children)
         .into_par_iter()
         .map(|k| {
-            let o = std::process::Command::new(&exe).arg("free-run").arg(k.to_string()).output();
+            // the children also differ in their environment: a pure function of the text must not notice
+            let mut cmd = std::process::Command::new(&exe);
+            cmd.arg("free-run").arg(k.to_string());
+            match k % 4 {
+                1 => {
+                    cmd.env("RUST_LOG", "trace").env("RUST_BACKTRACE", "1").env("NO_COLOR", "1");
+                }
+                2 => {
+                    cmd.current_dir("/").env("LANG", "C").env("LC_ALL", "C").env("TZ", "UTC+12").env("HOME", "/nonexistent").env("SOURCE_DATE_EPOCH", "1");
+                }
+                3 => {
+                    cmd.env("DEBUG", "1").env("VERBOSE", "1").env("KIKI_DEBUG", "1").env("KIKI_LOG", "1").env("CI", "true");
+                    for name in env_names_read_by_kiki() {
+                        cmd.env(name, "1");
+                    }
+                }
+                _ => {}
+            }
+            let o = cmd.output();
             match o {
                 Ok(o) if o.status.success() => String::from_utf8_lossy(&o.stdout).to_string(),
                 _ => "child failed".to_string(),
@@ -608,7 +685,7 @@ fn free_running_pass(children: usize) -> Result<u64, Finding> {
         Some((i, d)) => Err(Finding::new(
             "free_run",
             json!({"source": c[*i].1, "children": children}),
-            format!("generate gave {} different results for one text across {} free-running processes that visit the corpus in different orders (real RandomState) — input {}: {:?}", d.len(), children, c[*i].0, c[*i].1.chars().take(200).collect::<String>()),
+            format!("generate gave {} different results for one text across {} free-running processes that visit the corpus in different orders, under different environments (variables, working directory) and with the real RandomState — input {}: {:?}", d.len(), children, c[*i].0, c[*i].1.chars().take(200).collect::<String>()),
             json!("one result"),
             json!(d),
         )),
